@@ -87,6 +87,6 @@ CLAIM = dict(
     text="Per-call contracts on the real wasi.c entry points: args/environ layouts for all byte values and placements (vectors bounded), clock identifier "
          "mapping for all 2^32 ids with EINVAL otherwise, ns conversion and its monotonicity, random_get filling exactly [ptr,ptr+len) for every length in the "
          "tier's range under the documented 256-byte getentropy limit, proc_exit status, thread-spawn id/child/start-function obligations incl. one interfering spawn.",
-    note="Host services are models; vectors <= 3x3 bytes; random_get lengths <= 4096 quick / <= 2^20 thorough; concurrency of thread-spawn via one interference point, not schedules.",
+    note="Host services are models; vectors <= 3x3 bytes; random_get: every length 0..2^32-1 by inductive loop contracts injected at the two loop headers of wasiRandomGet (plus a bounded run with lengths <= 300 quick / 1024 thorough without loop contracts); wasiInit environment count; concurrency of thread-spawn via one interference point, not schedules.",
     technique="CBMC assume/assert contracts on wasi.c against a recording POSIX model; rely/guarantee interference stub for thread-spawn",
 )
